@@ -558,7 +558,7 @@ async def run_histories(ctx, salt: str, n: int, with_model: bool, case_fn=None):
 
 async def correspond(ctx):
     await kcorr.run(ctx, SCOPES, quick=(60, 60), thorough=(1500, 80), salt="c07")
-    await run_histories(ctx, "corr-hist", ctx.budget(100, 1300), with_model=True)
+    await run_histories(ctx, "corr-hist", ctx.budget(80, 1300), with_model=True)
     await run_histories(ctx, "corr-tree", ctx.budget(40, 500), with_model=True, case_fn=run_tree_case)
     ctx.stats.rule = ("kernel request sequences (a case is one request; distinct = distinct database states) + one case "
                       "per cleanup pass of a simulated build (database before revert_optional_steps -> model -> database "
@@ -566,8 +566,8 @@ async def correspond(ctx):
 
 
 async def search(ctx):
-    await run_histories(ctx, "oracle-hist", ctx.budget(180, 3000), with_model=False)
-    await run_histories(ctx, "oracle-tree", ctx.budget(120, 1500), with_model=False, case_fn=run_tree_case)
+    await run_histories(ctx, "oracle-hist", ctx.budget(150, 3000), with_model=False)
+    await run_histories(ctx, "oracle-tree", ctx.budget(100, 1500), with_model=False, case_fn=run_tree_case)
     for variant in range(ctx.budget(1, 3)):
         found, stats, summary = await asyncio.to_thread(f5_scenario, variant)
         for f in found:
